@@ -216,7 +216,9 @@ Inductive nres := NPanic | NOk (out : list peer).
 
 (** [RouteTable.NearestPeers].  [make(.., 0, count+rt.bucketsize)] panics when the (wrapping) sum
     is negative; [pds.peers[:count]] panics for a negative count.  (An absurdly large capacity
-    would also make [make] fail; not modelled, the theorems bound [count].) *)
+    would also make [make] fail; not modelled, the theorems bound [count].  The [make] panic
+    happens between [tabLock.RLock()] and [RUnlock()] without a [defer], so after it every
+    later Update/Remove blocks; not modelled either: histories keep [count + size >= 0].) *)
 Definition nearest_peers (t : table) (target : peer_id) (count : Z) : nres :=
   let c := bucket_index kb_clamp_nearest kb_clamp_nearest_to t (cpl target (t_local t)) in
   if (wrap_int64 (count + t_size t) <? 0)%Z then NPanic else
